@@ -513,6 +513,17 @@ fn gen_entries(sink: &mut Sink, rng: &mut Rng, n: u64) {
     }
 }
 
+/// the object lies in the domain the property words (spine only): keys without the separator,
+/// nested objects non-empty — used only to measure how many oracle cases are inside the domain.
+fn spine_in_domain(v: &Value, sep: &str) -> bool {
+    match v {
+        Value::Object(m) => m.iter().all(|(k, x)| {
+            !k.as_str().contains(sep) && !matches!(x, Value::Object(o) if o.is_empty()) && spine_in_domain(x, sep)
+        }),
+        _ => true,
+    }
+}
+
 fn single_entry_spine(v: &Value) -> bool {
     match v {
         Value::Object(m) => m.len() <= 1 && m.values().all(single_entry_spine),
@@ -591,6 +602,7 @@ fn gen_flatten(sink: &mut Sink, rng: &mut Rng, n: u64) {
         if matches!(v, Value::Object(_)) {
             if sink.emit("o.c25.flatten", &[s(&v), hex(sep.as_bytes())]).is_some() {
                 sink.count(if simple { "c25:flatten_simple_keys" } else { "c25:flatten_nasty_keys" });
+                sink.count(if spine_in_domain(&v, sep) { "c25:flatten_oracle_in_worded_domain" } else { "c25:flatten_oracle_outside_domain" });
             }
         }
         // keys made of joined pieces, so that unflatten has real work (groups, conflicts)
